@@ -401,6 +401,8 @@ func (t *Template) new(name string) *Template {
 	if existing, ok := tmpl.set[name]; ok {
 		emptyTmpl := New(existing.Name())
 		*existing = *emptyTmpl
+		// The name space of its own must know the handle, not the temporary value.
+		existing.set[existing.Name()] = existing
 	}
 	tmpl.set[name] = tmpl
 	return tmpl
